@@ -19,6 +19,9 @@ THEOREMS = [
     ("EG.props.C10", "C10_breaker_wrapper_records_once"),
     ("EG.props.C10", "C10_breaker_run_records"),
     ("EG.props.C10", "C10_breaker_rejected"),
+    ("EG.props.C10", "C10_prop_checker_sound"),
+    ("EG.props.C10", "C10_pool_checker_sound"),
+    ("EG.props.C10", "C10_pool_checker_sound_with_timeout"),
 ]
 _HOOK = {"pkg/util/circuitbreaker/zz_verif_c10_hook.go": "harness/resilience/zz_verif_c10_hook.go"}
 HARNESSES = [
@@ -29,7 +32,7 @@ HARNESSES = [
 ]
 GROUPS = {"retry": "check_retry", "pool": "check_pool"}
 EXPLAIN = {"retry": "explain_retry", "pool": "explain_pool"}
-CASES = {"quick": 500, "thorough": 9000}
+CASES = {"quick": 500, "thorough": 20000}
 RULE = ("cases: retry = RetryPolicy.Wrap (+ breaker wrapper closed / forced open) around a scripted handler "
         "(success at attempt s, all fail, panic; cancellation injected inside attempt k; random|exponential, factor k/8, waits 1ns..5ms, "
         "40-100ms in front of a cancellation, 1ns with factor<1/2 for the zero-wait select race, maxAttempts 0); "
